@@ -214,6 +214,18 @@ class CallGraph:
                             for t in tg:
                                 if t not in callees:
                                     callees.append(t)
+                # a function defined inside this function (or inside an enclosing one), called by its name
+                if isinstance(n.func, ast.Name):
+                    scope_q = f.qual
+                    while True:
+                        cand = f"{scope_q}.<locals>.{n.func.id}"
+                        if cand in prog.funcs:
+                            if cand not in callees:
+                                callees.append(cand)
+                            break
+                        if ".<locals>." not in scope_q:
+                            break
+                        scope_q = scope_q.rsplit(".<locals>.", 1)[0]
                 # a local bound from a registry:  cls_ = REG.get(k) / REG[k] / for k, cls_ in REG.items(): cls_(...)
                 if isinstance(n.func, ast.Name) and n.func.id not in ("cls", "self"):
                     regs = self._local_registry_classes(f, n.func.id)
